@@ -55,7 +55,8 @@ Inductive op :=
 | SetHeader (k v : str)       (* w.Header().Set(k, v), k canonical *)
 | AddHeader (k v : str)       (* w.Header().Add(k, v) *)
 | DelHeader (k : str)         (* w.Header().Del(k) *)
-| WriteHeader (c : N)         (* w.WriteHeader(c), 100 <= c <= 999 *)
+| ClearHeaders                (* clear(w.Header()): httputil.ReverseProxy after forwarding a 1xx *)
+| WriteHeader (c : N)         (* w.WriteHeader(c), 100 <= c <= 999, c <> 101 *)
 | Write (b : str).            (* w.Write(b) *)
 
 Definition hdr_op (o : op) (h : hdr) : hdr :=
@@ -63,12 +64,18 @@ Definition hdr_op (o : op) (h : hdr) : hdr :=
   | SetHeader k v => hset h k v
   | AddHeader k v => hadd h k v
   | DelHeader k => hdel h k
+  | ClearHeaders => []
   | _ => h
   end.
 
 (* the bytes the inner handler produced *)
 Definition written (ops : list op) : str :=
   flat_map (fun o => match o with Write b => b | _ => [] end) ops.
+
+(* an informational status code: not the final response.  net/http's server sends it at once
+   with the current header map and stays ready for the final WriteHeader (server.go, "code >= 100
+   && code <= 199 && code != StatusSwitchingProtocols"); 101 is outside the modelled domain *)
+Definition is_1xx (c : N) : bool := (100 <=? c) && (c <=? 199).
 
 (* acceptsGzip (gzip_handler.go:115-123): r.Header.Get = first value or "" *)
 Definition accepts_gzip (accept ae : list str) : bool :=
